@@ -54,6 +54,7 @@ type Case struct {
 	Plan         sched.Plan `json:"plan"`
 	Late         []int      `json:"late,omitempty"`       // line selectors of break points which are set WHILE the program runs: at the LateAfter-th state visit inside a function call (as if a client sent break commands at that moment)
 	LateAfter    int        `json:"late_after,omitempty"` //
+	Noise        bool       `json:"noise,omitempty"`      // a second client keeps setting and removing a break point of ANOTHER source while the session runs (the debugger's tables change under the running threads and the commands; writers are pending almost all the time)
 	StopAll      int        `json:"stop_all,omitempty"`   // > 0: that many sink threads are suspended at a breakpoint on several workers, then StopThreads must release every one of them
 }
 
@@ -252,6 +253,7 @@ func dbgCall(w *wrapDbg, s *sched.Sched, what, src string, f func()) (fail *hx.F
 		return nil, true
 	case <-time.After(stuckBound + 10*time.Second):
 	}
+	waited := stuckBound + 11*time.Second
 	a := atomic.LoadInt64(&w.nvis)
 	time.Sleep(500 * time.Millisecond)
 	b := atomic.LoadInt64(&w.nvis)
@@ -266,7 +268,7 @@ func dbgCall(w *wrapDbg, s *sched.Sched, what, src string, f func()) (fail *hx.F
 			stuckBound = 3 * time.Second
 		}
 		return hx.Failf("debugger-locked-up", "%s has not returned after %v, no thread visits a statement any more and a goroutine is blocked acquiring a lock inside the debugger (suspended threads cannot be resumed any more); hook counters %v\n%s\n%s",
-			what, stuckBound+11*time.Second, s.Counts(), g, src), false
+			what, waited, s.Counts(), g, src), false
 	}
 	inconclusive("c15." + what + "-slow")
 	return nil, false
@@ -406,6 +408,23 @@ func runCase(c Case) (fail *hx.Failure) {
 		default: // never evaluated (cannot happen: the baseline ran)
 			return hx.Failf("harness:no-debugger", "%s", src)
 		}
+	}
+
+	if c.Noise {
+		stopNoise := make(chan struct{})
+		defer close(stopNoise)
+		go func() {
+			for {
+				select {
+				case <-stopNoise:
+					return
+				default:
+				}
+				inner.SetBreakPoint("c15other", 1)
+				inner.RemoveBreakPoint("c15other", 1)
+				runtime.Gosched()
+			}
+		}()
 	}
 
 	var stops []stop
@@ -639,6 +658,9 @@ func runCase(c Case) (fail *hx.Failure) {
 	if c.BreakOnError {
 		classes = append(classes, "break-on-error")
 	}
+	if c.Noise {
+		classes = append(classes, "second-client.edits-break-points-of-another-source-meanwhile")
+	}
 	if len(lateLines) > 0 {
 		w.mu.Lock()
 		fired, inCall := w.lateDone, w.lateInCall
@@ -648,7 +670,7 @@ func runCase(c Case) (fail *hx.Failure) {
 			classes = append(classes, "late-break-points.nothing-observed-before")
 		}
 	}
-	key := src + fmt.Sprint(keys(active), c.Cmds, c.Plan, c.BreakOnStart, c.BreakOnError, lateLines, c.LateAfter)
+	key := src + fmt.Sprint(keys(active), c.Cmds, c.Plan, c.BreakOnStart, c.BreakOnError, lateLines, c.LateAfter, c.Noise)
 	hx.E.Case(nt, key, classes...)
 	hx.E.Class("suspensions", int64(len(stops)))
 	if nt {
@@ -868,6 +890,7 @@ func genCase(rt *rapid.T) Case {
 			c.Breaks, c.Disabled, c.Removed, c.BreakOnStart, c.BreakOnError = nil, nil, nil, false, false
 		}
 	}
+	c.Noise = pick(3, "noise") == 0
 	if pick(16, "stopall") == 0 {
 		c.StopAll = 2 + pick(3, "stopn")
 		c.Plan = nil
